@@ -29,23 +29,21 @@ Proof. intros Hok. unfold item_ok in Hok. apply andb_true_iff in Hok as [Hok _].
   unfold compute_field_name, wire_name. destruct (rename_of it) as [v|]; [reflexivity|].
   destruct ra as [r|]; [apply apply_field_ok; exact Hid|]. rewrite default_is_snake. reflexivity. Qed.
 
-Lemma name_variant it ra : item_ok it = true ->
-  compute_variant_name (it_ident it) (rename_of it) ra = Ok (wire_name KEnum ra it).
-Proof. intros Hok. unfold item_ok in Hok. apply andb_true_iff in Hok as [Hok _]. apply andb_true_iff in Hok as [Hid _].
-  unfold compute_variant_name, wire_name. destruct (rename_of it) as [v|]; [reflexivity|].
-  destruct ra as [r|]; [|reflexivity]. cbn [is_struct]. apply apply_variant_ok. exact Hid. Qed.
+Lemma name_variant it ra : compute_variant_name (it_ident it) (rename_of it) ra = wire_name KEnum ra it.
+Proof. unfold compute_variant_name, wire_name. destruct (rename_of it) as [v|]; [reflexivity|].
+  destruct ra as [r|]; [|reflexivity]. cbn [is_struct]. rewrite <- apply_variant_ok. destruct r; reflexivity. Qed.
 
 Lemma name_item k it ra : item_ok it = true ->
-  (if is_struct k then Ok (compute_field_name default_field_case (it_ident it) (rename_of it) ra)
-   else compute_variant_name (it_ident it) (rename_of it) ra) = Ok (wire_name k ra it).
-Proof. intros Hok. destruct k; cbn [is_struct]; [rewrite (name_field it ra Hok); reflexivity|apply name_variant; exact Hok]. Qed.
+  (if is_struct k then compute_field_name default_field_case (it_ident it) (rename_of it) ra
+   else compute_variant_name (it_ident it) (rename_of it) ra) = wire_name k ra it.
+Proof. intros Hok. destruct k; cbn [is_struct]; [apply name_field; exact Hok|apply name_variant]. Qed.
 
 Lemma emit_ok k ra items :
   forallb item_ok items = true ->
   existsb it_skip_text items = false -> existsb it_skip_beside items = false ->
   existsb it_escape items = false -> existsb it_rename_text items = false ->
   emit_raw k default_field_case ra (map item_raw items)
-  = Ok (map (wire_name k ra) (filter (fun it => negb (has_skip it)) items)).
+  = map (wire_name k ra) (filter (fun it => negb (has_skip it)) items).
 Proof. induction items as [|it items IH]; intros Hok H2 H3 H4 H5; [reflexivity|].
   cbn [forallb] in Hok. apply andb_true_iff in Hok as [Hit Hok].
   cbn [existsb] in H2, H3, H4, H5.
@@ -64,7 +62,7 @@ Proof. induction items as [|it items IH]; intros Hok H2 H3 H4 H5; [reflexivity|]
     cbn [negb map]. rewrite (name_item k it ra Hit), IH. reflexivity. Qed.
 
 Theorem names_correct c : in_domain c = true -> kf_C06 c = false ->
-  emitted_keys default_field_case c = Ok (serde_wire_names c).
+  emitted_keys default_field_case c = serde_wire_names c.
 Proof. intros Hd Hk. unfold emitted_keys, emitted_keys_raw, serde_wire_names. rewrite (struct_attrs_container c Hd).
   unfold kf_C06 in Hk. repeat (apply orb_false_iff in Hk as [Hk ?]).
   unfold in_domain in Hd. apply andb_true_iff in Hd as [Hd _]. apply andb_true_iff in Hd as [Hd _]. apply andb_true_iff in Hd as [Hitems _].
@@ -115,11 +113,11 @@ Definition w5 : container := {| c_kind := KStruct; c_attrs := [];
 Definition w6 : container := {| c_kind := KEnum; c_attrs := []; c_items := [it0 "Active" []; it0 "Gone" [[MSkip]]] |}.
 
 Definition refutes (kf : container -> bool) (w : container) (got : list str) : Prop :=
-  in_domain w = true /\ kf w = true /\ emitted_keys default_field_case w = Ok got /\ c06_ok w got = false.
+  in_domain w = true /\ kf w = true /\ emitted_keys default_field_case w = got /\ c06_ok w got = false.
 
 (* repaired (C06-1-variant-rule): the old witness now satisfies the property *)
 Lemma variant_rule_repaired : in_domain w1 = true /\ kf_C06 w1 = false /\
-  emitted_keys default_field_case w1 = Ok [L "IN_PROGRESS"; L "DONE"] /\ c06_ok w1 [L "IN_PROGRESS"; L "DONE"] = true
+  emitted_keys default_field_case w1 = [L "IN_PROGRESS"; L "DONE"] /\ c06_ok w1 [L "IN_PROGRESS"; L "DONE"] = true
   /\ c06_ok w1 [L "INPROGRESS"; L "DONE"] = false.
 Proof. vm_compute. repeat split. Qed.
 Lemma skip_text_refuted : refutes kf_skip_text w2 [L "a"] /\ serde_wire_names w2 = [L "a"; L "b"; L "c"].
@@ -132,7 +130,7 @@ Lemma rename_text_refuted : refutes kf_rename_text w5 [L "x"] /\ serde_wire_name
 Proof. vm_compute. repeat split. Qed.
 (* repaired (C06-6-variant-skip): the old witness now satisfies the property *)
 Lemma variant_skip_repaired : in_domain w6 = true /\ kf_C06 w6 = false /\
-  emitted_keys default_field_case w6 = Ok [L "Active"] /\ c06_ok w6 [L "Active"] = true /\ c06_ok w6 [L "Active"; L "Gone"] = false.
+  emitted_keys default_field_case w6 = [L "Active"] /\ c06_ok w6 [L "Active"] = true /\ c06_ok w6 [L "Active"; L "Gone"] = false.
 Proof. vm_compute. repeat split. Qed.
 (* the two skip classes now reach enum variants as well (parse_enum filters with the same flag) *)
 Definition w2e : container := {| c_kind := KEnum; c_attrs := [];
